@@ -15,11 +15,12 @@ DEPBASE = 'mesonbuild/dependencies/base.py'
 IOBJ = 'mesonbuild/interpreter/interpreterobjects.py'
 DEPACC = 'mesonbuild/scripts/depaccumulate.py'
 PROGRAMS = 'mesonbuild/programs.py'
+RUSTMOD = 'mesonbuild/modules/rust.py'
 
 EXPLANATION = (
     'Decides a structural necessary condition of C05 (the property itself quantifies over schedules and is NOT decided): '
     'R1 every dependency source the build model offers is routed into the Ninja edge by the function that emits it - a frozen table '
-    'of 63 must-flow obligations (function, source expression, sink) over generate_custom_target, generate_run_target, '
+    'of 73 must-flow obligations (function, source expression, sink) over generate_custom_target, generate_run_target, '
     'generate_genlist_for_target, generate_target (header/order deps of every generate_single_compile / generate_pch call, objects '
     'into generate_link), generate_single_compile, generate_pch, generate_link, generate_prelink, generate_shsym, '
     'get_fortran_module_deps and the model side in build.py (CustomTarget/RunTarget/GeneratedList constructors, get_dependencies); '
@@ -49,7 +50,23 @@ EXPLANATION = (
     'R1 also covers the dyndep writer scripts/depaccumulate.py (providers of linked targets reach the dyndep inputs). '
     'R1 also has a pairing row (must-pass-through): every path that records vs_module_defs also adds it to link_depends; and rows for '
     'the depaccumulate statement (scan results of all transitively linked targets are its inputs). '
-    'NOT decided: arithmetic agreement between two functions (the number of unity objects named by _determine_ext_objs vs the '
+    'R1 constructor rows: a target / object set derived from another target receives every partition of its sources - '
+    'RustModule.test_common hands sources, generated, structured_sources and objects of the crate under test to the Executable it builds, '
+    'BuildTarget.extract_all_objects hands sources, generated and objects to ExtractedObjects (arguments bound to the parameters of the '
+    'resolved __init__ / dataclass fields, positionally or by keyword). '
+    'R8 (typed must-pass-through) in Generator.process_files, BuildTarget.process_sourcelist and process_objectlist: for each producer class '
+    '(BuildTarget / CustomTarget / CustomTargetIndex / GeneratedList) every non-raising path through an iteration whose element is an '
+    'instance of that class passes an accumulation of the element into .depends / .generated; isinstance tests on the element (also '
+    'named as a local, negated, and/or-combined) are decided from the repository class hierarchy (subclass -> true, builtin or closed-world '
+    'disjoint class -> false); an escape that needs an undecided test or passes a helper that mentions the attribute is undecided. '
+    'R9 (sibling decision tables) select_sources_to_scan yields a source exactly when add_dependency_scanner_entries_to_element binds '
+    'the dyndep file: both bodies are read as path tables over canonical suffix atoms (raw / lower-cased `splitext(..)[1][1:]` == constant, '
+    'in a folded constant table; locals replaced by their reaching definition on the path, conditional expressions distributed, a '
+    'one-return predicate helper inlined) and compared in every consistent world of the atoms (witnessed by the declared suffixes and '
+    'their case variants); any other use of the suffix is undecided. '
+    'NOT decided: which language (cpp / fortran) the scanner reports for a suffix, and should_use_dyndeps_for_target agreeing between '
+    'the scan target and the compile statements (same call in both, not compared); flatten_command (re-binds its loop variable); '
+    'derived targets built in interpreter.py (both_libraries); arithmetic agreement between two functions (the number of unity objects named by _determine_ext_objs vs the '
     'number of unity files generate_unity_files() creates - a value-level ceiling division); results that differ between the first and later calls of a lazily initialising function (handle_cpp_import_std returning '
     'the std-module dependency only when it creates the statement); attribute stores on a proxy object instead of the underlying target '
     '(interpreter/mesonmain.py, needs receiver types); path-sensitive loss (a dependency list reset on one branch but still used on the other, e.g. modules/i18n.py '
@@ -66,7 +83,9 @@ ASSUMPTIONS = [
     'the obligation table (A.7, confirmed by reading the pinned tree) lists the sources that matter; a missing row is a gap of the check',
 ]
 TECHNIQUE = ('def-use must-flow: reaching definitions on the CFG (strong/weak defs), access-path origin sets, summaries of resolved '
-             'callees (depth 3/5); CFG reachability for registration and cache ordering; sibling/keyword agreement of signatures (R3)')
+             'callees (depth 3/5); CFG reachability for registration and cache ordering; sibling/keyword agreement of signatures (R3); '
+             'typed must-pass-through on the CFG with isinstance edges pruned by the class hierarchy (R8); path decision tables over '
+             'canonical suffix atoms compared in all worlds (R9)')
 
 
 class Ob(T.NamedTuple):
@@ -105,6 +124,12 @@ def PAIRED(chain_a: str, chain_b: str) -> T.Tuple[T.Any, ...]:
 
 def STORE(chain: str) -> T.Tuple[T.Any, ...]:
     return ('store', chain)
+
+
+def CTORARG(cls: str, params: T.Tuple[str, ...]) -> T.Tuple[T.Any, ...]:
+    """Every construction `Cls(...)` in the function receives the source in one of the named constructor parameters
+    (parameters of the resolved __init__, or the fields of a dataclass, bound positionally or by keyword)."""
+    return ('ctorarg', cls, params)
 
 
 HO = ('header_deps', 'order_deps')
@@ -194,6 +219,16 @@ R1_TABLE: T.List[Ob] = [
     Ob(BUILD, 'RunTarget.get_dependencies', 'attr:self.dependencies', RET()),
     Ob(BUILD, 'BuildTarget.get_dependencies', 'attr:self.link_targets', RET()),
     Ob(BUILD, 'BuildTarget.get_dependencies', 'attr:self.link_whole_targets', RET()),
+    # a target / object set derived from another target takes over every partition of its sources ----------------------
+    Ob(RUSTMOD, 'RustModule.test_common', 'attr:args.sources', CTORARG('Executable', ('sources',)), 'static sources of the crate under test'),
+    Ob(RUSTMOD, 'RustModule.test_common', 'attr:args.generated', CTORARG('Executable', ('sources',)),
+       'generated sources of the crate under test: their producers are the order-only inputs of the rustc step of the test executable'),
+    Ob(RUSTMOD, 'RustModule.test_common', 'attr:args.structured_sources', CTORARG('Executable', ('structured_sources',)),
+       'structured sources (may hold generated files) of the crate under test'),
+    Ob(RUSTMOD, 'RustModule.test_common', 'attr:args.objects', CTORARG('Executable', ('objects',)), 'objects: of the crate under test'),
+    Ob(BUILD, 'BuildTarget.extract_all_objects', 'attr:self.sources', CTORARG('ExtractedObjects', ('srclist',))),
+    Ob(BUILD, 'BuildTarget.extract_all_objects', 'attr:self.generated', CTORARG('ExtractedObjects', ('genlist',)), 'objects of generated sources'),
+    Ob(BUILD, 'BuildTarget.extract_all_objects', 'attr:self.objects', CTORARG('ExtractedObjects', ('objlist',))),
 ]
 
 R2_TABLE: T.List[Ob] = [
@@ -337,6 +372,25 @@ def _positional_guard(ob: Ob, labels: T.Iterable[str]) -> None:
                         f'the analysis understands; cannot tell whether it is position {src[src.rindex("["):]}')
 
 
+def ctor_params(repo: Repo, mod: Module, cname: str) -> T.Optional[T.List[str]]:
+    """Parameter names of `cname(...)` as used in `mod`: the first __init__ along the MRO (without self), or the annotated
+    fields of a @dataclass in declaration order."""
+    r = repo.resolve_class(mod, cname)
+    if r is None:
+        return None
+    for m, c in repo.mro(r[0], r[1]):
+        for st in c.body:
+            if isinstance(st, (ast.FunctionDef, ast.AsyncFunctionDef)) and st.name == '__init__':
+                a = st.args
+                if a.vararg is not None or a.kwarg is not None:
+                    return None
+                return [x.arg for x in a.posonlyargs + a.args][1:] + [x.arg for x in a.kwonlyargs]
+        if any((attr_chain(d.func if isinstance(d, ast.Call) else d) or '').rsplit('.', 1)[-1] == 'dataclass' for d in c.decorator_list):
+            return [st.target.id for st in c.body if isinstance(st, ast.AnnAssign) and isinstance(st.target, ast.Name)
+                    and 'ClassVar' not in ast.unparse(st.annotation)]
+    return None
+
+
 def check_ob(ctx: RuleCtx, an: Analyzer, ff: FuncFlow, ob: Ob, siblings: T.Sequence[str] = ()) -> None:
     _check_source(ff, ob)
     mod, qual, src = ff.mod, ob.qual, ob.source
@@ -423,6 +477,36 @@ def check_ob(ctx: RuleCtx, an: Analyzer, ff: FuncFlow, ob: Ob, siblings: T.Seque
             ctx.violation(mod, qual, f'{src} -> {"|".join(params)} of self.{callee}(...) [at least {quant}]',
                           f'{src} ({why}) reaches parameter {"/".join(params)} of only {len(good)} of {len(calls)} self.{callee}(...) calls, '
                           f'at least {quant} required. Calls without it: ' + '; '.join(f'`{t[:90]}`' for t, _, _ in bad), bad[0][2] if bad else ff.fn)
+        return
+    if kind == 'ctorarg':
+        _, cname, params = ob.sink
+        have = ctor_params(an.repo, ff.mod, cname)
+        if have is None:
+            raise Undecided(f'{qual}: the constructor parameters of {cname} cannot be read')
+        for p in params:
+            if p not in have:
+                raise Undecided(f'{qual}: {cname}(...) has no parameter `{p}` any more (has {have}); re-confirm the table')
+        sites = [(n, c) for n in ff.cfg.nodes for c in ff.node_calls(n)
+                 if (attr_chain(c.func) or '').rsplit('.', 1)[-1] == cname]
+        if not sites:
+            raise Undecided(f'{qual}: no construction {cname}(...) in this function (moved into a helper?)')
+        for n, c in sites:
+            if any(isinstance(a, ast.Starred) for a in c.args) or any(k.arg is None for k in c.keywords) or len(c.args) > len(have):
+                raise Undecided(f'{qual}: cannot bind the arguments of `{short(c, 80)}`')
+            bound = dict(zip(have, c.args))
+            bound.update({k.arg: k.value for k in c.keywords})
+            labels: T.Set[str] = set()
+            for p in params:
+                if p in bound:
+                    labels |= ff.origins_at(bound[p], n)
+            if src in labels:
+                ctx.ok(f'{qual}: {src} -> {"|".join(params)} of {cname}(...)')
+                continue
+            _positional_guard(ob, labels)
+            _closed_world_guard(ff, ob, labels)
+            ctx.violation(mod, qual, f'{src} -> {"|".join(params)} of {cname}(...)',
+                          f'{src} ({why}) does not reach parameter {"/".join(params)} of the {cname}(...) built here; '
+                          f'the argument carries [{_interesting(labels, 6)}]', c)
         return
     if kind == 'paired':
         _, chain_a, chain_b = ob.sink
@@ -1404,6 +1488,683 @@ def r6(ctx: RuleCtx) -> None:
         raise Undecided(' || '.join(und[:3]))
 
 
+# -- R8: typed must-pass-through - an input that is a build-tree producer is recorded as a dependency (K9) --------------
+
+class Arm(T.NamedTuple):
+    rel: str
+    qual: str
+    source: str                     # label the loop's iterable carries
+    leaf: str                       # the record: an accumulation of the element into an attribute chain ending in this name
+    producers: T.Tuple[str, ...]    # classes (as named in the module) whose instances are made by a build step
+    why: str
+
+
+R8_TABLE = [
+    Arm(BUILD, 'Generator.process_files', 'param:files', 'depends', ('BuildTarget', 'CustomTarget', 'CustomTargetIndex', 'GeneratedList'),
+        'GeneratedList.depends is what generate_genlist_for_target walks to emit the build statements of the producers of generator inputs'),
+    Arm(BUILD, 'BuildTarget.process_sourcelist', 'param:sources', 'generated', ('CustomTarget', 'CustomTargetIndex', 'GeneratedList'),
+        'BuildTarget.generated is the list every generated-source / generated-header edge of the target is made from'),
+    Arm(BUILD, 'BuildTarget.process_objectlist', 'param:objects', 'generated', ('CustomTarget', 'CustomTargetIndex', 'GeneratedList'),
+        'generated objects: their producer is ordered before the link through BuildTarget.generated'),
+]
+
+R8_SELFCHECK_SRC = """
+class File: pass
+class Target: pass
+class BuildTarget(Target): pass
+class CustomTarget(Target): pass
+class GeneratedList: pass
+
+class B:
+    def good(self, files):
+        for e in files:
+            if isinstance(e, (BuildTarget, CustomTarget)):
+                self.out.depends.add(e)
+                fs = e.get_outputs()
+            elif isinstance(e, GeneratedList):
+                self.out.depends.add(e)
+                self.out.add_files(e.get_outputs())
+                continue
+            else:
+                fs = [e]
+            self.out.add_files(fs)
+
+    def merged_after_continue(self, files):
+        for e in files:
+            if isinstance(e, (BuildTarget, CustomTarget)):
+                fs = e.get_outputs()
+            elif isinstance(e, GeneratedList):
+                self.out.add_files(e.get_outputs())
+                continue
+            else:
+                fs = [e]
+            if not isinstance(e, (str, File)):
+                self.out.depends.add(e)
+            self.out.add_files(fs)
+
+    def hoisted_guard(self, files):
+        for e in files:
+            is_file = isinstance(e, (str, File))
+            if not is_file:
+                self.out.depends.add(e)
+            if isinstance(e, GeneratedList):
+                self.out.add_files(e.get_outputs())
+                continue
+            self.out.add_files([e])
+
+    def helper(self, files):
+        for e in files:
+            if isinstance(e, GeneratedList):
+                self.note(self.out, e)
+                continue
+            self.out.add_files([e])
+
+    def note(self, out, e):
+        out.depends.add(e)
+
+    def helper_sometimes(self, files):
+        for e in files:
+            if isinstance(e, GeneratedList):
+                self.note_if(self.out, e)
+                continue
+            self.out.add_files([e])
+
+    def note_if(self, out, e):
+        if self.enabled:
+            out.depends.add(e)
+"""
+
+_BUILTIN_TYPES = {'str', 'bytes', 'int', 'float', 'bool', 'list', 'tuple', 'dict', 'set', 'frozenset', 'type(None)'}
+
+
+def _instance_fact(repo: Repo, mod: Module, p: T.Tuple[Module, ast.ClassDef], kexprs: T.Sequence[ast.AST], memo: T.Dict[T.Any, T.Any]) -> T.Optional[bool]:
+    """Truth of isinstance(x, kexprs) for an x whose class is p or a subclass of p: True when p derives from one of the
+    classes, False when every class is provably disjoint from p (a builtin type, or an unrelated repository class that shares
+    no subclass with p in the closed world of their two modules), None otherwise."""
+    pmro = [c for _, c in repo.mro(p[0], p[1])]
+    unknown = False
+    for k in kexprs:
+        ch = attr_chain(k)
+        if ch is None:
+            unknown = True
+            continue
+        if ch in _BUILTIN_TYPES:
+            continue
+        r = repo.resolve_class(mod, ch)
+        if r is None:
+            unknown = True
+            continue
+        if any(c is r[1] for c in pmro):
+            return True
+        if any(c is p[1] for _, c in repo.mro(r[0], r[1])):
+            unknown = True          # a strict subclass of p: x may or may not be one
+            continue
+        key = (id(p[1]), id(r[1]))
+        if key not in memo:
+            shared = False
+            for m in {p[0].rel: p[0], r[0].rel: r[0]}.values():
+                for c in m.classes().values():
+                    lin = [x for _, x in repo.mro(m, c)]
+                    if any(x is p[1] for x in lin) and any(x is r[1] for x in lin):
+                        shared = True
+            memo[key] = shared
+        if memo[key]:
+            unknown = True
+    return None if unknown else False
+
+
+def _helper_records(ff: FuncFlow, call: ast.Call, cal: T.Any, var: str, leaf: str) -> bool:
+    """The resolved helper receives the element `var` as a plain argument and every non-raising path through it accumulates that
+    parameter into an attribute chain ending in `leaf`."""
+    b = bind_args(cal[3], call, cal[4])
+    if b is None:
+        return False
+    ps = [p for p, a in b.items() if isinstance(a, ast.Name) and a.id == var]
+    if len(ps) != 1:
+        return False
+    summ = ff.an.summary(cal[1], cal[2], cal[3], ff.depth - 1)
+    if summ is None or summ.ff is None:
+        return False
+    hf = summ.ff
+    if any(d.name == ps[0] and not d.param for d in hf.defs):
+        return False
+    recs = [n for chain, lst in hf.attr_defs.items() if chain.rsplit('.', 1)[-1] == leaf for n, v, _i in lst
+            if v is not None and any(isinstance(x, ast.Name) and x.id == ps[0] for x in ast.walk(v))]
+    if not recs:
+        return False
+    reach = hf.cfg.reachable([hf.cfg.entry], recs, edge_ok=lambda a, b, lab: lab != 'exc')
+    return hf.cfg.exit_return.id not in reach
+
+
+def arm_verdicts(repo: Repo, ff: FuncFlow, row: Arm) -> T.List[T.Tuple[str, str, T.Any]]:
+    """For the outermost loop(s) over row.source: under the assumption `the element is an instance of producer class P`
+    (each P of the row in turn) every non-raising path through one iteration passes a statement that accumulates the element
+    into `<...>.<leaf>`.  isinstance tests on the element are decided from the class hierarchy; an escape that needs a test the
+    rule cannot decide, or passes a helper that receives the element and mentions the leaf, is undecided."""
+    cfg = ff.cfg
+    out: T.List[T.Tuple[str, str, T.Any]] = []
+    memo: T.Dict[T.Any, T.Any] = {}
+    prods = []
+    for name in row.producers:
+        r = repo.resolve_class(ff.mod, name)
+        if r is None:
+            raise Undecided(f'{ff.qual}: producer class {name} cannot be resolved from {ff.mod.rel}; re-confirm the table')
+        prods.append((name, r))
+    heads = [h for h in cfg.nodes if h.kind == 'iter' and isinstance(h.ast, ast.For) and row.source in ff.origins_at(h.ast.iter, h)]
+    heads = [h for h in heads if not any(h2 is not h and any(x is h.ast for st in h2.ast.body for x in ast.walk(st)) for h2 in heads)]
+    if not heads:
+        return [('undecided', f'{ff.qual}: no `for` loop over {row.source} (comprehension / helper?)', ff.fn)]
+    for head in heads:
+        loop = head.ast
+        if not isinstance(loop.target, ast.Name):
+            out.append(('undecided', f'{ff.qual}: the loop over `{short(loop.iter, 40)}` unpacks its element', loop))
+            continue
+        var = loop.target.id
+        inbody = {id(x) for st in loop.body for x in ast.walk(st)}
+        body_nodes = {n.id for n in cfg.nodes if n.ast is not None and id(n.ast) in inbody}
+        if any(d.name == var and d.node in body_nodes for d in ff.defs):
+            out.append(('undecided', f'{ff.qual}: the loop variable `{var}` is re-bound in the body', loop))
+            continue
+
+        def mentions(e: T.Optional[ast.AST]) -> bool:
+            return e is not None and any(isinstance(x, ast.Name) and x.id == var for x in ast.walk(e))
+        rec = {n.id for chain, lst in ff.attr_defs.items() if chain.rsplit('.', 1)[-1] == row.leaf
+               for n, v, _i in lst if n.id in body_nodes and mentions(v)}
+        maybe: T.Set[int] = set()
+        for n in cfg.nodes:
+            if n.id not in body_nodes or n.id in rec:
+                continue
+            for c in ff.node_calls(n):
+                if not any(mentions(a) for a in list(c.args) + [k.value for k in c.keywords]):
+                    continue
+                if isinstance(c.func, ast.Name) and c.func.id in ff.local_names:
+                    maybe.add(n.id)          # a closure / callable local
+                    continue
+                cal = ff._callee(c)
+                if cal is not None and cal[3] is not ff.fn and ff.an.mentions(cal[3], row.leaf, 2):
+                    if _helper_records(ff, c, cal, var, row.leaf):
+                        rec.add(n.id)        # the arm was extracted: every non-raising path of the helper records its parameter
+                    else:
+                        maybe.add(n.id)
+        maybe -= rec
+        outside = [n for chain, lst in ff.attr_defs.items() if chain.rsplit('.', 1)[-1] == row.leaf
+                   for n, v, i in lst if n.id not in body_nodes and v is not None and row.source in ff.origins_at(v, n, i)]
+
+        def formula(e: ast.AST, n: T.Any, p: T.Tuple[Module, ast.ClassDef], depth: int = 0) -> T.Tuple[T.Optional[bool], bool]:
+            """(three-valued truth under the assumption, does an undecided part depend on the element)"""
+            if isinstance(e, ast.UnaryOp) and isinstance(e.op, ast.Not):
+                v, dep = formula(e.operand, n, p, depth)
+                return (None if v is None else not v), dep
+            if isinstance(e, ast.BoolOp):
+                parts = [formula(x, n, p, depth) for x in e.values]
+                dom = isinstance(e.op, ast.Or)
+                if any(v is dom for v, _ in parts):
+                    return dom, False
+                if all(v is (not dom) for v, _ in parts):
+                    return (not dom), False
+                return None, any(dep for v, dep in parts if v is None)
+            if isinstance(e, ast.Call) and isinstance(e.func, ast.Name) and e.func.id == 'isinstance' and len(e.args) == 2 and not e.keywords \
+                    and isinstance(e.args[0], ast.Name) and e.args[0].id == var:
+                cl = e.args[1]
+                v = _instance_fact(repo, ff.mod, p, list(cl.elts) if isinstance(cl, ast.Tuple) else [cl], memo)
+                return v, v is None
+            if isinstance(e, ast.Name) and depth < 2:
+                ds = [ff.defs[i] for i in ff.IN[n.id].get(e.id, frozenset())]
+                if len(ds) == 1 and ds[0].strong and not ds[0].param and ds[0].value is not None and ds[0].index is None \
+                        and ds[0].node in body_nodes:
+                    return formula(ds[0].value, cfg.nodes[ds[0].node], p, depth + 1)
+            return None, mentions(e)
+
+        def escape(p: T.Tuple[Module, ast.ClassDef], strict: bool) -> T.Optional[T.Any]:
+            """A path through one iteration that avoids the record.  strict: helpers that may record and tests on the element
+            the rule cannot decide block the path (what is found is certain)."""
+            avoid = rec | maybe if strict else rec
+            seen: T.Set[int] = set()
+            stack = [b for b, lab in cfg.succ[head.id] if lab == 'iter' and b not in avoid]
+            while stack:
+                a = stack.pop()
+                if a in seen:
+                    continue
+                seen.add(a)
+                node = cfg.nodes[a]
+                if a == head.id or a not in body_nodes:
+                    return node
+                allowed: T.Optional[bool] = None
+                if node.kind == 'test':
+                    v, dep = formula(node.ast.test, node, p)
+                    if v is None and dep and strict:
+                        continue
+                    allowed = v
+                for b, lab in cfg.succ[a]:
+                    if lab == 'exc' or b in avoid or cfg.nodes[b].kind == 'exit_raise':
+                        continue
+                    if allowed is not None and lab in (True, False) and lab is not allowed:
+                        continue
+                    stack.append(b)
+            return None
+
+        for name, p in prods:
+            sure = escape(p, True)
+            if sure is not None and outside:
+                out.append(('undecided', f'{ff.qual}: elements of {row.source} are also accumulated into .{row.leaf} outside the loop '
+                            f'(`{short(outside[0].expr(), 60)}`); the rule does not read which', loop))
+            elif sure is not None:
+                how = 'starts the next iteration' if sure.id == head.id else 'leaves the loop'
+                out.append(('violation', f'when the element of `{short(loop.iter, 40)}` is a {name}, a path through the iteration {how} '
+                            f'without accumulating it into .{row.leaf} ({len(rec)} recording statement(s) in the body): the producer of that '
+                            'input is not a declared dependency of the consumer', (loop, name)))
+            elif escape(p, False) is not None:
+                out.append(('undecided', f'{ff.qual}: whether a {name} element is recorded in .{row.leaf} depends on a helper or on a test '
+                            f'on `{var}` the rule does not decide', loop))
+            else:
+                out.append(('ok', f'{ff.qual}: every iteration whose element is a {name} accumulates it into .{row.leaf}', loop))
+    return out
+
+
+def r8(ctx: RuleCtx) -> None:
+    repo = Repo(ctx.repo.root, {SELFCHECK_REL: R8_SELFCHECK_SRC})
+    m = repo.module(SELFCHECK_REL)
+    an = Analyzer(repo, m, m.cls('B'))
+    ex = Arm(SELFCHECK_REL, '', 'param:files', 'depends', ('BuildTarget', 'CustomTarget', 'GeneratedList'), '')
+    ex1 = ex._replace(producers=('GeneratedList',))
+    got = {q: [v[0] for v in arm_verdicts(repo, an.flow(m, f'B.{q}', m.func(f'B.{q}')), e)]
+           for q, e in (('good', ex), ('merged_after_continue', ex), ('hoisted_guard', ex), ('helper', ex1), ('helper_sometimes', ex1))}
+    want = {'good': ['ok', 'ok', 'ok'], 'merged_after_continue': ['ok', 'ok', 'violation'], 'hoisted_guard': ['ok', 'ok', 'ok'], 'helper': ['ok'],
+            'helper_sometimes': ['undecided']}
+    if got != want:
+        raise AnalysisError(f'built-in example: arm verdicts {got}')
+    ctx.note('built-in example: record in every producer arm and a hoisted `not isinstance(e, (str, File))` guard accepted; a record merged '
+             'after the chain that the `continue` of the GeneratedList arm skips rejected; a helper that always records followed, one that records conditionally left undecided')
+    get = _analyzers(ctx.repo, 5 if ctx.thorough else 3)
+    und: T.List[str] = []
+    for row in R8_TABLE:
+        an2, ff = get(row.rel, row.qual)
+        _check_source(ff, Ob(row.rel, row.qual, row.source, ('edge',)))
+        an2.stack.append(id(ff.fn))
+        try:
+            vs = arm_verdicts(ctx.repo, ff, row)
+        finally:
+            an2.stack.pop()
+        for verdict, msg, node in vs:
+            if verdict == 'ok':
+                ctx.ok(msg)
+            elif verdict == 'violation':
+                ctx.violation(ff.mod, row.qual, f'{node[1]} element of {row.source} -> .{row.leaf}', f'{msg} ({row.why})', node[0])
+            else:
+                und.append(msg)
+    if und:
+        raise Undecided(' || '.join(und[:3]))
+
+
+# -- R9: sibling agreement of two suffix predicates - scanned sources == compile statements that load the dyndep file (K10) ------
+
+R9_SCAN = 'NinjaBackend.select_sources_to_scan'
+R9_LOAD = 'NinjaBackend.add_dependency_scanner_entries_to_element'
+_RAW, _LOW = '__suffix_raw__', '__suffix_lower__'
+
+R9_SELFCHECK_SRC = """
+import os
+SUFFIXES = {'cpp': ('cc', 'C'), 'fortran': ('f90',)}
+
+class B:
+    def scan(self, sources):
+        for s in sources:
+            ext = os.path.splitext(s)[1][1:]
+            if ext.lower() in SUFFIXES['cpp'] or ext == 'C':
+                yield s, 'cpp'
+            elif ext.lower() in SUFFIXES['fortran']:
+                yield s, 'fortran'
+
+    def load(self, element, src):
+        if not self.enabled:
+            return
+        extension = os.path.splitext(src.fname)[1][1:]
+        if extension != 'C':
+            extension = extension.lower()
+        if not (extension in SUFFIXES['fortran'] or extension in SUFFIXES['cpp']):
+            return
+        element.add_item('dyndep', self.dd)
+
+    def load_verbatim(self, element, src):
+        extension = os.path.splitext(src.fname)[1][1:]
+        if not (extension in SUFFIXES['fortran'] or extension in SUFFIXES['cpp']):
+            return
+        element.add_item('dyndep', self.dd)
+
+    def load_helper(self, element, src):
+        if self._scanned(os.path.splitext(src.fname)[1][1:]):
+            element.add_item('dyndep', self.dd)
+
+    def _scanned(self, suffix):
+        return suffix == 'C' or suffix.lower() in (*SUFFIXES['cpp'], *SUFFIXES['fortran'])
+"""
+
+
+class _Subst(ast.NodeTransformer):
+    def __init__(self, env: T.Dict[str, ast.AST]):
+        self.env = env
+
+    def visit_Name(self, node: ast.Name) -> ast.AST:
+        if isinstance(node.ctx, ast.Load) and node.id in self.env:
+            return self.env[node.id]
+        return node
+
+
+def _is_const(e: ast.AST, v: T.Any) -> bool:
+    return isinstance(e, ast.Constant) and e.value == v and type(e.value) is type(v)
+
+
+class _SuffixForms(ast.NodeTransformer):
+    """`os.path.splitext(X)[1][1:]` -> the raw suffix symbol; `.lower()` of a suffix symbol -> the lower-cased suffix symbol."""
+    def visit_Subscript(self, node: ast.Subscript) -> ast.AST:
+        self.generic_visit(node)
+        sl = node.slice
+        if isinstance(sl, ast.Slice) and sl.upper is None and sl.step is None and sl.lower is not None and _is_const(sl.lower, 1):
+            inner = node.value
+            if isinstance(inner, ast.Subscript) and _is_const(inner.slice, 1) and isinstance(inner.value, ast.Call) \
+                    and (attr_chain(inner.value.func) or '').rsplit('.', 1)[-1] == 'splitext' and len(inner.value.args) == 1:
+                return ast.Name(id=_RAW, ctx=ast.Load())
+        return node
+
+    def visit_Call(self, node: ast.Call) -> ast.AST:
+        self.generic_visit(node)
+        f = node.func
+        if isinstance(f, ast.Attribute) and f.attr == 'lower' and not node.args and not node.keywords \
+                and isinstance(f.value, ast.Name) and f.value.id in (_RAW, _LOW):
+            return ast.Name(id=_LOW, ctx=ast.Load())
+        return node
+
+
+def _has_suffix(e: ast.AST) -> bool:
+    return any(isinstance(x, ast.Name) and x.id in (_RAW, _LOW) for x in ast.walk(e))
+
+
+def suffix_predicate(repo: Repo, mod: Module, cls: T.Optional[ast.ClassDef], qual: str, body: T.List[ast.stmt],
+                     accepts: T.Callable[[ast.AST], bool]) -> T.List[T.Tuple[T.List[T.Tuple[T.Any, bool]], bool]]:
+    """Decision table of `body` over canonical suffix atoms: per path ([(formula, required truth)], accepting?).
+    A formula is ('eq', form, const) | ('in', form, frozenset of constants) | ('not', f) | ('and'|'or', [f...]) | ('free',)
+    where form is raw / lower; locals are replaced by their reaching definition on the path; a predicate helper consisting of
+    one `return <expr>` is inlined.  Anything else that involves the suffix is not read -> Undecided."""
+    from ..paths import enumerate_paths
+    from .. import consteval
+
+    def canon(e: ast.AST, env: T.Dict[str, ast.AST]) -> ast.AST:
+        import copy
+        e2 = _Subst(env).visit(copy.deepcopy(e))
+        return _SuffixForms().visit(e2)
+
+    def form_of(e: ast.AST) -> T.Optional[str]:
+        if isinstance(e, ast.Name) and e.id == _RAW:
+            return 'raw'
+        if isinstance(e, ast.Name) and e.id == _LOW:
+            return 'lower'
+        return None
+
+    def const_set(e: ast.AST) -> T.FrozenSet[str]:
+        try:
+            v = consteval.fold_expr(repo, mod, e)
+        except Undecided as ex:
+            raise Undecided(f'{qual}: the suffix is tested against `{short(e, 60)}`, which does not fold to a constant table ({ex})')
+        if isinstance(v, dict):
+            v = list(v)
+        if not isinstance(v, (tuple, list, set, frozenset)) or not all(isinstance(x, str) for x in v):
+            raise Undecided(f'{qual}: `{short(e, 60)}` is not a table of suffix strings')
+        return frozenset(v)
+
+    def formula(e: ast.AST, depth: int = 0) -> T.Any:
+        if not _has_suffix(e):
+            return ('free',)
+        if isinstance(e, ast.UnaryOp) and isinstance(e.op, ast.Not):
+            return ('not', formula(e.operand, depth))
+        if isinstance(e, ast.BoolOp):
+            return ('and' if isinstance(e.op, ast.And) else 'or', [formula(x, depth) for x in e.values])
+        ife = next((x for x in ast.walk(e) if isinstance(x, ast.IfExp)), None)
+        if ife is not None and depth < 4:
+            # a conditional expression inside the test: (A if c else B) op S  ==  c and (A op S)  or  not c and (B op S)
+            import copy
+
+            def pick(node: ast.AST, arm: ast.AST) -> ast.AST:
+                if node is ife:
+                    return arm
+                out = copy.copy(node)
+                for fld, val in ast.iter_fields(node):
+                    if isinstance(val, list):
+                        setattr(out, fld, [pick(x, arm) if isinstance(x, ast.AST) else x for x in val])
+                    elif isinstance(val, ast.AST):
+                        setattr(out, fld, pick(val, arm))
+                return out
+            c = formula(ife.test, depth + 1)
+            yes = formula(pick(e, ife.body), depth + 1)
+            no = formula(pick(e, ife.orelse), depth + 1)
+            return ('or', [('and', [c, yes]), ('and', [('not', c), no])])
+        if isinstance(e, ast.Compare) and len(e.ops) == 1:
+            a, op, b = e.left, e.ops[0], e.comparators[0]
+            if isinstance(op, (ast.Eq, ast.NotEq)):
+                if form_of(a) is None and form_of(b) is not None:
+                    a, b = b, a
+                if form_of(a) is not None and isinstance(b, ast.Constant) and isinstance(b.value, str):
+                    f = ('eq', form_of(a), b.value)
+                    return f if isinstance(op, ast.Eq) else ('not', f)
+            if isinstance(op, (ast.In, ast.NotIn)) and form_of(a) is not None and not _has_suffix(b):
+                f = ('in', form_of(a), const_set(b))
+                return f if isinstance(op, ast.In) else ('not', f)
+        if isinstance(e, ast.Call) and depth < 2 and not e.keywords and not any(isinstance(a, ast.Starred) for a in e.args):
+            fn2 = None
+            if isinstance(e.func, ast.Attribute) and isinstance(e.func.value, ast.Name) and e.func.value.id == 'self' and cls is not None:
+                r = repo.find_method(mod, cls, e.func.attr)
+                if r is not None and r[0] is mod:
+                    fn2 = r[2]
+                    params = [a.arg for a in fn2.args.posonlyargs + fn2.args.args][(0 if 'staticmethod' in [attr_chain(d) for d in fn2.decorator_list] else 1):]
+            elif isinstance(e.func, ast.Name) and mod.has_func(e.func.id):
+                fn2 = mod.func(e.func.id)
+                params = [a.arg for a in fn2.args.posonlyargs + fn2.args.args]
+            if fn2 is not None:
+                stmts = [st for st in fn2.body if not (isinstance(st, ast.Expr) and isinstance(st.value, ast.Constant))]
+                if len(stmts) == 1 and isinstance(stmts[0], ast.Return) and stmts[0].value is not None and len(params) == len(e.args):
+                    return formula(canon(stmts[0].value, dict(zip(params, e.args))), depth + 1)
+        raise Undecided(f'{qual}: the test `{short(e, 70)}` involves the source suffix in a form the rule does not read')
+
+    # names the suffix is computed from (arguments of splitext) and locals derived from them: a test on one of them that is not a
+    # canonical suffix atom (endswith, pathlib suffix, a helper ...) may look at the suffix too -> not read
+    tainted: T.Set[str] = set()
+    for st in body:
+        for x in ast.walk(st):
+            if isinstance(x, ast.Call) and (attr_chain(x.func) or '').rsplit('.', 1)[-1] == 'splitext':
+                tainted |= {y.id for a in x.args for y in ast.walk(a) if isinstance(y, ast.Name)}
+    changed = True
+    while changed:
+        changed = False
+        for st in walk_stmts(body):
+            if isinstance(st, (ast.Assign, ast.AnnAssign, ast.AugAssign)) and st.value is not None \
+                    and any(isinstance(y, ast.Name) and y.id in tainted for y in ast.walk(st.value)):
+                for tg in (st.targets if isinstance(st, ast.Assign) else [st.target]):
+                    for y in ast.walk(tg):
+                        if isinstance(y, ast.Name) and y.id not in tainted:
+                            tainted.add(y.id)
+                            changed = True
+    tainted.discard('self')
+
+    def type_test_only(e: ast.AST) -> bool:
+        if isinstance(e, ast.UnaryOp) and isinstance(e.op, ast.Not):
+            return type_test_only(e.operand)
+        if isinstance(e, ast.BoolOp):
+            return all(type_test_only(x) for x in e.values)
+        return isinstance(e, ast.Call) and isinstance(e.func, ast.Name) and e.func.id == 'isinstance'
+
+    rows: T.List[T.Tuple[T.List[T.Tuple[T.Any, bool]], bool]] = []
+    for path in enumerate_paths(body):
+        env: T.Dict[str, ast.AST] = {}
+        conj: T.List[T.Tuple[T.Any, bool]] = []
+        acc = False
+        for ev in path.events:
+            if ev.kind == 'cond':
+                f = formula(canon(ev.node, env))
+                if f == ('free',) and not type_test_only(ev.node) \
+                        and any(isinstance(y, ast.Name) and y.id in tainted for y in ast.walk(ev.node)):
+                    raise Undecided(f'{qual}: the test `{short(ev.node, 70)}` looks at the source path in a form the rule does not read')
+                conj.append((f, bool(ev.val)))
+            elif ev.kind == 'stmt':
+                st = ev.node
+                if accepts(st):
+                    acc = True
+                if isinstance(st, ast.Assign) and len(st.targets) == 1 and isinstance(st.targets[0], ast.Name):
+                    env[st.targets[0].id] = canon(st.value, env)
+                elif isinstance(st, ast.AnnAssign) and isinstance(st.target, ast.Name) and st.value is not None:
+                    env[st.target.id] = canon(st.value, env)
+                else:
+                    for x in ast.walk(st):
+                        if isinstance(x, ast.Name) and isinstance(x.ctx, (ast.Store, ast.Del)) and x.id in env:
+                            if _has_suffix(env[x.id]):
+                                raise Undecided(f'{qual}: `{x.id}` (derived from the source suffix) is re-bound by `{short(st, 60)}`')
+                            del env[x.id]
+            elif ev.kind in ('iter', 'with'):
+                for x in ast.walk(ev.node) if ev.node is not None else ():
+                    if isinstance(x, ast.Name) and isinstance(x.ctx, ast.Store):
+                        env.pop(x.id, None)
+        if path.outcome == 'raise':
+            continue
+        rows.append((conj, acc))
+    return rows
+
+
+def _atoms(f: T.Any, out: T.Set[T.Any]) -> None:
+    if f[0] in ('eq', 'in'):
+        out.add(f)
+    elif f[0] == 'not':
+        _atoms(f[1], out)
+    elif f[0] in ('and', 'or'):
+        for x in f[1]:
+            _atoms(x, out)
+
+
+def _truth(f: T.Any, world: T.Dict[T.Any, bool]) -> T.Optional[bool]:
+    if f[0] == 'free':
+        return None
+    if f[0] in ('eq', 'in'):
+        return world[f]
+    if f[0] == 'not':
+        v = _truth(f[1], world)
+        return None if v is None else not v
+    vs = [_truth(x, world) for x in f[1]]
+    dom = f[0] == 'or'
+    if any(v is dom for v in vs):
+        return dom
+    if all(v is (not dom) for v in vs):
+        return not dom
+    return None
+
+
+def suffix_worlds(tables: T.Sequence[T.List[T.Tuple[T.List[T.Tuple[T.Any, bool]], bool]]]) -> T.List[T.Tuple[str, T.Dict[T.Any, bool]]]:
+    """The consistent truth assignments of the suffix atoms of all tables, each with a witness: the suffixes the constant
+    tables declare, their case variants, and one suffix that is in no table."""
+    atoms: T.Set[T.Any] = set()
+    for t in tables:
+        for conj, _ in t:
+            for f, _v in conj:
+                _atoms(f, atoms)
+    consts: T.Set[str] = set()
+    for a in atoms:
+        consts |= {a[2]} if a[0] == 'eq' else set(a[2])
+    reps = sorted({v for c in consts for v in (c, c.upper(), c.lower(), c.capitalize())} | {'\x00none'})
+    seen: T.Dict[T.Tuple[bool, ...], str] = {}
+    order = sorted(atoms, key=repr)
+    out = []
+    for s in reps:
+        w = {}
+        for a in order:
+            subj = s if a[1] == 'raw' else s.lower()
+            w[a] = (subj == a[2]) if a[0] == 'eq' else (subj in a[2])
+        key = tuple(w[a] for a in order)
+        if key not in seen:
+            seen[key] = s
+            out.append((s, w))
+    return out
+
+
+def _accepting(table: T.List[T.Tuple[T.List[T.Tuple[T.Any, bool]], bool]], world: T.Dict[T.Any, bool]) -> bool:
+    return any(acc and all(_truth(f, world) in (None, v) for f, v in conj) for conj, acc in table)
+
+
+def _is_yield_stmt(st: ast.AST) -> bool:
+    return any(isinstance(x, (ast.Yield, ast.YieldFrom)) for x in ast.walk(st))
+
+
+def _is_dyndep_stmt(st: ast.AST) -> bool:
+    return any(isinstance(x, ast.Call) and isinstance(x.func, ast.Attribute) and x.func.attr == 'add_item' and x.args
+               and _is_const(x.args[0], 'dyndep') for x in ast.walk(st))
+
+
+def suffix_agreement(repo: Repo, mod: Module, cls: T.Optional[ast.ClassDef], scan_q: str, load_q: str) -> T.Tuple[int, int, T.List[str]]:
+    """(worlds, suffix atoms, witnesses of disagreement)"""
+    scan = mod.func(scan_q)
+    emits = _is_yield_stmt
+    if not any(_is_yield_stmt(st) for st in scan.body):
+        # list builder instead of a generator: `res = []; for ..: res.append(..); return res`
+        rets = [st for st in walk_stmts(scan.body) if isinstance(st, ast.Return)]
+        if len(rets) == 1 and isinstance(rets[0].value, ast.Name):
+            acc_name = rets[0].value.id
+
+            def emits(st: ast.AST) -> bool:
+                return any(isinstance(x, ast.Call) and isinstance(x.func, ast.Attribute) and x.func.attr in ('append', 'add')
+                           and isinstance(x.func.value, ast.Name) and x.func.value.id == acc_name for x in ast.walk(st)) \
+                    or (isinstance(st, ast.AugAssign) and isinstance(st.target, ast.Name) and st.target.id == acc_name)
+    loops = [st for st in walk_stmts(scan.body) if isinstance(st, ast.For) and any(emits(b) for b in st.body)]
+    if len(loops) != 1 or any(emits(st) for st in scan.body if st is not loops[0] and not any(x is loops[0] for x in ast.walk(st))):
+        raise Undecided(f'{scan_q}: the scanned sources are not yielded / appended from the body of one `for` loop over the sources')
+    ta = suffix_predicate(repo, mod, cls, scan_q, loops[0].body, emits)
+    load = mod.func(load_q)
+    tb = suffix_predicate(repo, mod, cls, load_q, load.body, _is_dyndep_stmt)
+    if not any(acc for _, acc in tb):
+        raise Undecided(f"{load_q}: no path adds the 'dyndep' item to the element (moved into a helper?)")
+    worlds = suffix_worlds([ta, tb])
+    natoms = len(worlds[0][1]) if worlds else 0
+    for t, q in ((ta, scan_q), (tb, load_q)):
+        s: T.Set[T.Any] = set()
+        for conj, _ in t:
+            for f, _v in conj:
+                _atoms(f, s)
+        if not s:
+            raise Undecided(f'{q}: no test on the source suffix (`os.path.splitext(..)[1][1:]`) was read')
+    bad = []
+    for wit, w in worlds:
+        a, b = _accepting(ta, w), _accepting(tb, w)
+        if a != b:
+            bad.append(f"suffix like '.{wit}': " + ('scanned, but its compile statement does not load the dyndep file' if a else
+                                                      'its compile statement loads the dyndep file, but the source is not scanned'))
+    return len(worlds), natoms, bad
+
+
+def walk_stmts(body: T.List[ast.stmt]) -> T.Iterator[ast.stmt]:
+    for st in body:
+        yield st
+        for fld in ('body', 'orelse', 'finalbody'):
+            sub = getattr(st, fld, None)
+            if isinstance(sub, list) and not isinstance(st, (ast.FunctionDef, ast.AsyncFunctionDef, ast.ClassDef)):
+                yield from walk_stmts(sub)
+        for h in getattr(st, 'handlers', []) or []:
+            yield from walk_stmts(h.body)
+
+
+def r9(ctx: RuleCtx) -> None:
+    repo = Repo(ctx.repo.root, {SELFCHECK_REL: R9_SELFCHECK_SRC})
+    m = repo.module(SELFCHECK_REL)
+    got = {q: bool(suffix_agreement(repo, m, m.cls('B'), 'B.scan', f'B.{q}')[2]) for q in ('load', 'load_verbatim', 'load_helper')}
+    if got != {'load': False, 'load_verbatim': True, 'load_helper': False}:
+        raise AnalysisError(f'built-in example: suffix agreement {got}')
+    ctx.note('built-in example: lower-unless-C reading and a one-line predicate helper agree with the scanner; a verbatim suffix test disagrees (F90)')
+    mod = ctx.repo.module(NB)
+    nworlds, natoms, bad = suffix_agreement(ctx.repo, mod, mod.cls('NinjaBackend'), R9_SCAN, R9_LOAD)
+    ctx.floor('suffix atoms read in the two predicates', natoms, 3)
+    ctx.floor('suffix worlds compared', nworlds, 4)
+    if bad:
+        ctx.violation(mod, R9_LOAD, 'scanned sources == compile statements that load the dyndep file',
+                      f'{R9_SCAN} and {R9_LOAD} classify source suffixes differently in {len(bad)} of {nworlds} worlds: ' + '; '.join(bad[:4])
+                      + ' (the module edge carried by the dyndep file is lost / ninja rejects a dyndep file that does not mention the output)',
+                      mod.func(R9_LOAD))
+    else:
+        ctx.ok(f'{R9_SCAN} yields a source exactly when {R9_LOAD} binds the dyndep file, in all {nworlds} suffix worlds ({natoms} atoms)')
+
+
 # -- R7: a built file of a target output lives in the target's build directory (K8) -----------------------------------
 
 R7_SELFCHECK_SRC = '''
@@ -1559,4 +2320,6 @@ RULES = [
     Rule('C05.R5', 'isinstance arms in dependency-collecting code are not shadowed by an earlier base-class test', r5),
     Rule('C05.R6', 'collector loops over dependency sources keep every element (no break/continue/return before the accumulation)', r6),
     Rule('C05.R7', 'a built File of a target output is placed in the target build directory, not its source sub-directory', r7),
+    Rule('C05.R8', 'an input that is a build-tree producer is recorded as a dependency on every path of its iteration (typed must-pass-through)', r8),
+    Rule('C05.R9', 'the dependency scanner scans a source exactly when its compile statement loads the dyndep file (sibling suffix predicates agree)', r9),
 ]
